@@ -134,6 +134,14 @@ Plain(S) == Res(S, <<>>, FALSE, FALSE)
 LogItem(l) == [k |-> "log", l |-> l]
 StItem(b) == [k |-> "st", b |-> b]
 
+(* what a MultiProgress leaves on its old terminal when it is given another target: the lines painted last, as plain text *)
+ShownAsText(S, x) == IF S.bars[x].drawn /\ ~S.blanked THEN [j \in 1..Len(S.bars[x].onscr) |-> LogItem(S.bars[x].onscr[j])] ELSE <<>>
+RECURSIVE LeftItems(_, _, _)
+LeftItems(S, items, j) == IF j > Len(items) THEN <<>>
+                          ELSE (IF items[j].k = "log" THEN <<items[j]>> ELSE ShownAsText(S, items[j].b)) \o LeftItems(S, items, j + 1)
+RECURSIVE LeftOrder(_, _, _)
+LeftOrder(S, o, j) == IF j > Len(o) THEN <<>> ELSE ShownAsText(S, o[j]) \o LeftOrder(S, o, j + 1)
+
 Apply(S, r) ==
     LET b == r.b
         B == S.bars[b]
@@ -226,6 +234,20 @@ Apply(S, r) ==
             (* cleared at once (and it is painted again by its next draw)                                                       *)
             Res([SetBar(S, b, [B EXCEPT !.vis = ~S.mphid, !.inmp = TRUE, !.drawn = FALSE, !.pend = <<>>, !.onscr = <<>>])
                     EXCEPT !.order = Append(Remove(S.order, b), b), !.ghosts = S.ghosts \/ B.inmp], <<>>, vis /\ B.inmp, FALSE)
+      [] r.op = "mp_set_target" ->
+            (* MultiProgress::set_draw_target.  The old target is simply no longer used: what it showed last stays where it is, as text *)
+            (* (like for a stand-alone bar); from now on the members are hidden / draw to the new target, each from its next request.    *)
+            LET v == r.target \in VisibleTargets
+                mem == {x \in S.ids : S.bars[x].inmp}
+                reset(B0) == [B0 EXCEPT !.vis = v /\ B0.alive, !.drawn = FALSE, !.pend = <<>>, !.onscr = <<>>, !.static = FALSE, !.mayVanish = FALSE]
+            IN IF S.mphid
+               THEN Plain([S EXCEPT !.mphid = ~v, !.unlim = r.target = "spy",
+                                    !.bars = [x \in DOMAIN S.bars |-> IF x \in mem THEN [S.bars[x] EXCEPT !.vis = v /\ S.bars[x].alive] ELSE S.bars[x]]])
+               ELSE LET left == LeftItems(S, S.above, 1) \o LeftOrder(S, S.order, 1) IN
+                    Plain([S EXCEPT !.mphid = ~v, !.unlim = r.target = "spy", !.blanked = FALSE,
+                                    !.above = left, !.order = SelectSeq(S.order, LAMBDA x : S.bars[x].alive),
+                                    !.ghosts = S.ghosts \/ (\E x \in mem : S.bars[x].drawn /\ ~S.blanked),
+                                    !.bars = [x \in DOMAIN S.bars |-> IF x \in mem THEN reset(S.bars[x]) ELSE S.bars[x]]])
       [] r.op = "mp_println" -> IF S.mphid THEN Plain(S) ELSE Res(AllowVanish(S), TextLines(r.m), TRUE, FALSE)
       [] r.op = "mp_suspend" -> Res(AllowVanish(S), Split(r.m), ~S.mphid, FALSE)
       [] r.op = "mp_clear"   -> IF S.mphid THEN Plain(S) ELSE Res(AllowVanish(S), <<>>, TRUE, TRUE)
